@@ -416,4 +416,44 @@ def r14_5(ctx: Ctx, rule: str = "R14.5") -> RuleResult:
     return rr
 
 
-RULES = [r14_1, r14_2, r14_3, r14_4, r14_5]
+def r14_6(ctx: Ctx) -> RuleResult:
+    """White space at the end of pointer text belongs to its last token (`/a/b ` addresses the member `b `).  Parsing
+    and joining strip on the left only; wherever a method of JSONPointer splits text into reference tokens, the
+    text must derive from its input without `strip()` / `rstrip()`."""
+    from .common import expand_locals
+
+    rr = RuleResult("R14.6", "pointer text keeps its trailing characters when it is split into tokens", floor=2)
+    cls = ctx.repo.require_class("jsonpath.pointer.JSONPointer")
+    n = 0
+    for m in cls.methods.values():
+        for c in calls(m.node, "split"):
+            if not (isinstance(c.func, ast.Attribute) and c.args and isinstance(c.args[0], ast.Constant) and c.args[0].value == "/"):
+                continue
+            n += 1
+            # the chain of text operations from a parameter to the split, through single-assignment locals and
+            # straight-line rebinding (`s = s.lstrip()`)
+            seen_ops: List[str] = []
+            names = {a.arg for a in m.node.args.args + m.node.args.kwonlyargs}
+            e = expand_locals(m.node, c.func.value)
+            work = [e]
+            for a in ast.walk(m.node):
+                if isinstance(a, ast.Assign) and len(a.targets) == 1 and isinstance(a.targets[0], ast.Name) and a.targets[0].id in names | {
+                        x.id for x in ast.walk(e) if isinstance(x, ast.Name)}:
+                    work.append(a.value)
+            for w in work:
+                for x in ast.walk(w):
+                    if isinstance(x, ast.Call) and isinstance(x.func, ast.Attribute) and x.func.attr in ("strip", "rstrip") and not any(
+                            isinstance(a, ast.Constant) and isinstance(a.value, str) and a.value and not a.value.isspace() for a in x.args):
+                        seen_ops.append(x.func.attr)
+            if seen_ops:
+                rr.bad(m, c, f"{m.qualname} splits text into tokens after `.{seen_ops[0]}()`: white space at the end of the last token is lost "
+                       "(`p / \"b \"` addresses the member `b` instead of `b `), and the joined pointer differs from the parsed one",
+                       construct=f"{m.name}: {seen_ops[0]} before split('/')")
+            else:
+                rr.ok(m.loc(c), f"{m.qualname}: text is split into tokens with its trailing characters")
+    if n == 0:
+        raise AnalysisError("R14.6: no method of JSONPointer splits text into reference tokens")
+    return rr
+
+
+RULES = [r14_1, r14_2, r14_3, r14_4, r14_5, r14_6]
